@@ -236,10 +236,17 @@ func (ex *expander) walk(dot interp.Value, n parse.Node) error {
 			case 2:
 				ex.vars = append(ex.vars, tvar{n.Pipe.Decl[0].Ident[0], int64(i)}, tvar{n.Pipe.Decl[1].Ident[0], e})
 			}
-			if err := ex.walk(e, n.List); err != nil {
+			err := ex.walk(e, n.List)
+			ex.vars = ex.vars[:inner]
+			if err == errContinue {
+				continue
+			}
+			if err == errBreak {
+				break
+			}
+			if err != nil {
 				return err
 			}
-			ex.vars = ex.vars[:inner]
 		}
 		return nil
 	case *parse.TemplateNode:
@@ -266,11 +273,20 @@ func (ex *expander) walk(dot interp.Value, n parse.Node) error {
 		err := ex.walk(newDot, t.Root)
 		ex.vars = saved
 		return err
-	case *parse.BreakNode, *parse.ContinueNode:
-		return ex.undecided(n, "template construct %s is outside the analysed vocabulary", fmt.Sprint(n.Type()))
+	case *parse.BreakNode:
+		// leaves the innermost range (text/template/parse rejects one outside a range)
+		return errBreak
+	case *parse.ContinueNode:
+		return errContinue
 	}
 	return ex.undecided(n, "template node %T is outside the analysed vocabulary", n)
 }
+
+// errBreak, errContinue unwind the walk to the innermost range node.
+var (
+	errBreak    = fmt.Errorf("template break")
+	errContinue = fmt.Errorf("template continue")
+)
 
 func (ex *expander) truth(n parse.Node, v interp.Value) (bool, error) {
 	switch v := v.(type) {
